@@ -45,10 +45,7 @@ theorem sendHeaders_sr (h : Evolves SRel RInv a s.store) (id : Nat) (eos : Bool)
       revert h1
       generalize (s.modStream id fun st => { st with state := ((s.stream id).state.sendOpen eos).1 }) = s1
       intro h1
-      simp only [crp_store]
-      split
-      trace_state
-      all_goals sorry
+      ev
 
 macro_rules | `(tactic| ev_step) => `(tactic| with_reducible apply sendHeaders_sr)
 
